@@ -12,6 +12,7 @@ import (
 
 	"verifharness/internal/core"
 	_ "verifharness/internal/props"
+	"verifharness/internal/props/c03"
 	"verifharness/internal/props/c20"
 )
 
@@ -43,6 +44,11 @@ func main() {
 			usage()
 		}
 		os.Exit(core.RunReplay(os.Args[2]))
+	case "c03server":
+		if len(os.Args) != 3 {
+			usage()
+		}
+		os.Exit(c03.ServerMain(os.Args[2]))
 	case "crashchild":
 		if len(os.Args) != 5 {
 			usage()
